@@ -48,6 +48,9 @@ type scope struct {
 
 	// State
 	disposed int32 // atomic
+
+	// closed is closed when Close has finished disposing the scope
+	closed chan struct{}
 }
 
 func newScope(rootProvider *provider, parent *scope, ctx context.Context, cancel context.CancelFunc) (*scope, error) {
@@ -77,6 +80,7 @@ func newUninitializedScope(rootProvider *provider, parent *scope, ctx context.Co
 		instances:    make(map[instanceKey]any, 8), // Pre-size for typical usage
 		disposables:  make([]Disposable, 0, 4),
 		children:     make(map[*scope]struct{}, 2),
+		closed:       make(chan struct{}),
 	}
 
 	ctx = context.WithValue(ctx, scopeContextKey{}, s)
@@ -252,6 +256,7 @@ func (s *scope) Close() error {
 	if !atomic.CompareAndSwapInt32(&s.disposed, 0, 1) {
 		return nil // Already closed
 	}
+	defer close(s.closed)
 
 	var errs []error
 
@@ -273,6 +278,11 @@ func (s *scope) Close() error {
 		if err := child.Close(); err != nil {
 			errs = append(errs, fmt.Errorf("failed to close child scope: %w", err))
 		}
+
+		// Cancelling our context (above) also wakes the child's own
+		// cancellation watcher, which may be the one disposing the child. The
+		// child must be completely disposed before we dispose our own instances.
+		<-child.closed
 	}
 
 	// Dispose all disposable scoped instances in reverse order
